@@ -28,9 +28,12 @@ struct mcount_regs {
 
 #define HAVE_MCOUNT_ARCH_CONTEXT
 struct mcount_arch_context {
-	/* whole 128-bit registers: vector and __float128 arguments use the upper half */
+	/*
+	 * whole registers: vector and __float128 arguments use the upper half of
+	 * an xmm register, AVX vector arguments the upper half of a ymm register
+	 */
 	struct {
-		unsigned long v[2];
+		unsigned long v[4];
 	} xmm[ARCH_MAX_FLOAT_ARGS];
 };
 
